@@ -522,5 +522,11 @@ def run_config(cfg, max_events_per_instant=5000):
     finally:
         _RUN = None
     maxi = run.env.max_events_per_instant if run.env else 0
+    # quiescent: nothing is scheduled any more except the sources' "no further input" timers (HUGE) -- in particular no
+    # buffer timer, no fleet timer, no processing delay is still running at the horizon
+    try:
+        quiet_end = outcome == "ok" and run.env.peek() >= HUGE / 2
+    except Exception:
+        quiet_end = False
     return {"cfg": cfg, "ev": run.ev, "outcome": outcome, "err": err, "max_events_per_instant": maxi,
-            "offgrid": getattr(run, "offgrid", False)}
+            "offgrid": getattr(run, "offgrid", False), "quiet_end": bool(quiet_end)}
